@@ -580,7 +580,16 @@ func (w *world) doState(sc *fsc, s connectivity.State) {
 	w.resetObs()
 	role, i := w.role(sc)
 	what := fmt.Sprintf("State(%s %v,%s)", role, sc, stNames[s])
+	connectsBefore := sc.connects
 	w.b.UpdateSubConnState(sc, balancer.SubConnState{ConnectivityState: s})
+	if role == "repl" && s == connectivity.Idle {
+		// gRPC parks a connection whose attempt failed in IDLE until Connect() is called: a replacement left there
+		// never becomes READY, the refresh never ends and (one refresh per channel) none can follow
+		w.labels["replacement-reported-idle"]++
+		if sc.connects == connectsBefore {
+			w.fail("C07", "A.repl.idle", "%s: the replacement connection went IDLE and was not asked to connect again: this refresh can never complete and the channel can never be refreshed again", what)
+		}
+	}
 	switch role {
 	case "pool":
 		sl := w.slots[i]
